@@ -549,13 +549,25 @@ def stage_mixed_elements_sweep(ctx: Ctx):
         for args_as in ('pos', 'arg', 'kw', 'arg_only', 'kw_only', 'pos_maybe', 'arg_maybe', 'kw_maybe'):
             for i in range(n):
                 for j in range(i + 1, n + 1):
-                    for how in ('get_slice', 'view_cut'):
+                    for how in ('get_slice', 'view_cut', 'get_slice-in-options-block', 'view_cut-after-set_options'):
                         m = fst.FST(asrc, 'exec')
                         args = m.body[0].args if asrc.startswith('def') else m.body[0].value.args
                         before = (m.src, ast.dump(m.a, include_attributes=True))
                         rec = {'src': asrc, 'start': i, 'stop': j, 'args_as': args_as, 'entry': how}
                         try:
-                            piece = args.get_slice(i, j, '_all', cut=True, args_as=args_as) if how == 'get_slice' else args._all[i:j].cut(args_as=args_as)
+                            if how == 'get_slice':
+                                piece = args.get_slice(i, j, '_all', cut=True, args_as=args_as)
+                            elif how == 'view_cut':
+                                piece = args._all[i:j].cut(args_as=args_as)
+                            elif how == 'get_slice-in-options-block':
+                                with fst.FST.options(args_as=args_as):
+                                    piece = args.get_slice(i, j, '_all', cut=True)
+                            else:
+                                old_ = fst.FST.set_options(args_as=args_as)
+                                try:
+                                    piece = args._all[i:j].cut()
+                                finally:
+                                    fst.FST.set_options(**old_)
                         except Exception as e:
                             ctx.tick(('args_as-cut', asrc, i, j, args_as, how, 'raised'), 'fault:sweep:cut-with-conversion')
                             after = (m.src, ast.dump(m.a, include_attributes=True) if m.a is not None else None)
@@ -609,6 +621,47 @@ def stage_mixed_elements_sweep(ctx: Ctx):
                 d = reparse_diffs(m)
                 if d:
                     ctx.violation(f'accepted-invalid|sweep-nonroot-node-as-one|{c.name}', 'an edit that was accepted left a tree that does not re-parse to itself', {**rec, 'src_after': m.src, 'diffs': d})
+
+    # slices that span lines and carry comments (taken from parenthesized donors) put into statements that cannot be parenthesized: the fix-up that adds line
+    # continuations runs after the put and can refuse
+    donors = [('from m import (x,  # comment\n    y)\n', lambda t: t.body[0], 'names'), ('from m import (x as p,  # c1\n    y,  # c2\n    z)\n', lambda t: t.body[0], 'names'),
+              ('t = (x,  # comment\n     y)\n', lambda t: t.body[0].value, 'elts'), ('t = [x.a,  # c1\n     y[0],\n     z]\n', lambda t: t.body[0].value, 'elts'),
+              ('def g():\n    global x, \\\n        y\n', lambda t: t.body[0].body[0], 'names')]
+    hosts2 = [('import a, b\n', lambda t: t.body[0], 'names'), ('import a\n', lambda t: t.body[0], 'names'), ('from m import a, b\n', lambda t: t.body[0], 'names'), ('del a, b\n', lambda t: t.body[0], 'targets'),
+              ('a = b = c\n', lambda t: t.body[0], 'targets'), ('def f():\n    global a, b\n', lambda t: t.body[0].body[0], 'names'), ('if q:\n    import a, b\n', lambda t: t.body[0].body[0], 'names'),
+              ('with a, b: pass\n', lambda t: t.body[0], 'items'), ('for i in a, b: pass\n', lambda t: t.body[0].iter, 'elts'), ('x = a, b\n', lambda t: t.body[0].value, 'elts')]
+    for dsrc, dget, dfld in donors:
+        for hsrc, hget, hfld in hosts2:
+            for (i, j) in ((0, 0), (1, 1), (0, 1), (1, 2), (2, 2), (0, 2)):
+                for ep in ('put_slice', 'view_setslice', 'extend'):
+                    if ep == 'extend' and (i, j) != (2, 2):
+                        continue
+                    m = fst.FST(hsrc, 'exec')
+                    node = hget(m)
+                    try:
+                        code = dget(fst.FST(dsrc, 'exec')).get_slice(0, 'end', dfld)
+                    except Exception:
+                        break
+                    before = (m.src, ast.dump(m.a, include_attributes=True))
+                    rec = {'src': hsrc, 'field': hfld, 'code_from': dsrc, 'code': code.src, 'start': i, 'stop': j, 'entry': ep}
+                    try:
+                        if ep == 'put_slice':
+                            node.put_slice(code, i, j, hfld)
+                        elif ep == 'view_setslice':
+                            getattr(node, hfld)[i:j] = code
+                        else:
+                            node.extend(code, hfld)
+                    except Exception as e:
+                        ctx.tick(('multiline-code', hsrc, dsrc, i, j, ep, 'raised'), 'fault:sweep:multiline-commented-code')
+                        after = (m.src, ast.dump(m.a, include_attributes=True) if m.a is not None else None)
+                        if after != before:
+                            ctx.violation(f'mutated|sweep-multiline-commented-code|{type(node.a).__name__}.{hfld}|{type(e).__name__}|' + ('source changed' if after[0] != before[0] else 'tree positions/structure changed'),
+                                          'a raising edit did not leave the tree exactly as it was', {**rec, 'error': repr(e)[:200], 'src_after': after[0]})
+                        continue
+                    ctx.tick(('multiline-code', hsrc, dsrc, i, j, ep, 'ok'), 'fault:sweep:multiline-commented-code:accepted')
+                    d = reparse_diffs(m)
+                    if d:
+                        ctx.violation(f'accepted-invalid|sweep-multiline-commented-code|{type(node.a).__name__}.{hfld}', 'an edit that was accepted left a tree that does not re-parse to itself', {**rec, 'src_after': m.src, 'diffs': d})
 
 
 def run(ctx: Ctx):
